@@ -527,4 +527,662 @@ theorem hsr_list : ∀ xs as ds, encList .serpent true xs = .ok as → decList .
     simp [hashOK.hashOKList, recList, nfList, i1, i2, i3, j1, j2, j3]
 end
 
+
+/-! marshal: a hashable value that can be dumped comes back as itself, hashable and normal -/
+mutual
+theorem hmr_val : ∀ k a d, hashable k = true → enc .marshal true k = .ok a → dec .marshal false false a = .ok d →
+    hashable d = true ∧ nf .marshal d = true
+  | .none, a, d, _, h1, h2 => by simp [enc] at h1; subst h1; simp [dec] at h2; subst h2; simp [hashable, nf]
+  | .bool _, a, d, _, h1, h2 => by simp [enc] at h1; subst h1; simp [dec] at h2; subst h2; simp [hashable, nf]
+  | .int _, a, d, _, h1, h2 => by simp [enc] at h1; subst h1; simp [dec] at h2; subst h2; simp [hashable, nf]
+  | .float _, a, d, _, h1, h2 => by simp [enc] at h1; subst h1; simp [dec] at h2; subst h2; simp [hashable, nf]
+  | .str _, a, d, _, h1, h2 => by simp [enc] at h1; subst h1; simp [dec] at h2; subst h2; simp [hashable, nf]
+  | .bytes _, a, d, _, h1, h2 => by simp [enc] at h1; subst h1; simp [dec] at h2; subst h2; simp [hashable, nf]
+  | .complex _ _, a, d, _, h1, h2 => by simp [enc] at h1; subst h1; simp [dec] at h2; subst h2; simp [hashable, nf]
+  | .uuid _, a, d, _, h1, h2 => by simp [enc] at h1
+  | .decimal _, a, d, _, h1, h2 => by simp [enc] at h1
+  | .date _, a, d, _, h1, h2 => by simp [enc] at h1
+  | .tuple xs, a, d, hh, h1, h2 => by
+    simp only [enc, bind_eq_ok] at h1
+    obtain ⟨ys, g1, e⟩ := h1; cases e
+    simp only [dec, bind_eq_ok] at h2
+    obtain ⟨ds, g2, e⟩ := h2; cases e
+    obtain ⟨i1, i2⟩ := hmr_list xs ys ds (by simpa [hashable] using hh) g1 g2
+    simp [hashable, nf, i1, i2]
+  | .frozenset xs, a, d, hh, h1, h2 => by
+    simp only [enc, bind_eq_ok] at h1
+    obtain ⟨ys, g1, e⟩ := h1; cases e
+    simp only [dec, bind_eq_ok] at h2
+    obtain ⟨ds, g2, e⟩ := h2; cases e
+    obtain ⟨i1, i2⟩ := hmr_list xs ys ds (by simpa [hashable] using hh) g1 g2
+    simp [hashable, nf, i1, i2]
+  | .bytearray _, _, _, hh, _, _ => by simp [hashable] at hh
+  | .list _, _, _, hh, _, _ => by simp [hashable] at hh
+  | .set _, _, _, hh, _, _ => by simp [hashable] at hh
+  | .dict _, _, _, hh, _, _ => by simp [hashable] at hh
+  | .ext _ _, _, _, hh, _, _ => by simp [hashable] at hh
+  | .inst _ _, _, _, hh, _, _ => by simp [hashable] at hh
+theorem hmr_list : ∀ xs as ds, hashable.hashableList xs = true → encList .marshal true xs = .ok as →
+    decList .marshal false false as = .ok ds → hashable.hashableList ds = true ∧ nfList .marshal ds = true
+  | .nil, as, ds, _, h1, h2 => by
+    simp [encList] at h1; subst h1; simp [decList] at h2; subst h2; simp [hashable.hashableList, nfList]
+  | .cons x xs, as, ds, hh, h1, h2 => by
+    simp only [hashable.hashableList, Bool.and_eq_true] at hh
+    simp only [encList, bind_eq_ok] at h1
+    obtain ⟨a, g1, as', g2, e⟩ := h1; cases e
+    simp only [decList, bind_eq_ok] at h2
+    obtain ⟨d, g3, ds', g4, e⟩ := h2; cases e
+    obtain ⟨i1, i2⟩ := hmr_val x a d hh.1 g1 g3
+    obtain ⟨j1, j2⟩ := hmr_list xs as' ds' hh.2 g2 g4
+    simp [hashable.hashableList, nfList, i1, i2, j1, j2]
+end
+
+/-- the key part of `nfPairs` -/
+def keyOK (s : Ser) (k : Val) : Bool :=
+  match s with
+  | .serpent => serpentHashType k && hashOK k && nf s k
+  | .marshal => hashable k && nf s k
+  | .json => isStr k
+  | .msgpack => isStrOrBytes k
+
+/-- decoded dict whose keys are acceptable and whose values post-process only into normal forms -/
+def GoodPairs (s : Ser) (r : Bool) : Pairs → Prop
+  | .nil => True
+  | .cons k d rest => keyOK s k = true ∧ (∀ w, post r s d = .ok w → nf s w = true) ∧ GoodPairs s r rest
+
+theorem good_lookup (s : Ser) (r : Bool) (k : Val) : ∀ (ds : Pairs) (d : Val), GoodPairs s r ds →
+    ds.lookup k = some d → ∀ w, post r s d = .ok w → nf s w = true
+  | .nil, _, _, h => by simp [Pairs.lookup] at h
+  | .cons k' d' rest, d, hg, h => by
+    simp only [Pairs.lookup] at h
+    by_cases e : k' = k
+    · rw [if_pos e] at h; cases h; exact hg.2.1
+    · rw [if_neg e] at h; exact good_lookup s r k rest d hg.2.2 h
+
+theorem good_erase (s : Ser) (r : Bool) (k : Val) : ∀ (ds : Pairs), GoodPairs s r ds → GoodPairs s r (ds.erase k)
+  | .nil, _ => trivial
+  | .cons k' d' rest, hg => by
+    simp only [Pairs.erase]
+    by_cases e : k' = k
+    · rw [if_pos e]; exact good_erase s r k rest hg.2.2
+    · rw [if_neg e]; exact ⟨hg.1, hg.2.1, good_erase s r k rest hg.2.2⟩
+
+theorem good_pushFront (s : Ser) (r : Bool) (k d : Val) (ds : Pairs) (hk : keyOK s k = true)
+    (hd : ∀ w, post r s d = .ok w → nf s w = true) (hg : GoodPairs s r ds) : GoodPairs s r (ds.pushFront k d) := by
+  unfold Pairs.pushFront
+  cases hl : ds.lookup k with
+  | none => exact ⟨hk, hd, hg⟩
+  | some d' => exact ⟨hk, good_lookup s r k ds d' hg hl, good_erase s r k ds hg⟩
+
+theorem good_postVals (s : Ser) (r : Bool) : ∀ (ds ws : Pairs), GoodPairs s r ds → postVals r s ds = .ok ws →
+    nfPairs s ws = true ∧ ws.nodupKeys = ds.nodupKeys ∧ ∀ k, ws.hasKey k = ds.hasKey k
+  | .nil, ws, _, h => by
+    cases r <;> simp [postVals, recVals] at h <;> subst h <;> simp [nfPairs]
+  | .cons k d rest, ws, hg, h => by
+    obtain ⟨hk, hd, hr⟩ := hg
+    cases r with
+    | false =>
+      simp [postVals] at h; subst h
+      obtain ⟨i1, _, _⟩ := good_postVals s false rest rest hr (by simp [postVals])
+      have := hd d (by simp [post])
+      cases s <;> simp_all [nfPairs, keyOK]
+    | true =>
+      simp only [postVals, if_true, recVals, bind_eq_ok] at h
+      obtain ⟨w, g1, ws', g2, e⟩ := h; cases e
+      obtain ⟨i1, i2, i3⟩ := good_postVals s true rest ws' hr (by simp [postVals, g2])
+      have := hd w (by simp [post, g1])
+      refine ⟨?_, ?_, ?_⟩
+      · cases s <;> simp_all [nfPairs, keyOK]
+      · simp [Pairs.nodupKeys, i2, i3]
+      · intro k'; simp [Pairs.hasKey, i3]
+
+
+theorem hsr_elts : ∀ xs ys ds, encElts true xs = .ok ys → decList .serpent false false ys = .ok ds →
+    unhashable.unhashableList ds = false →
+    ds.all serpentHashType = true ∧ hashOK.hashOKList ds = true ∧ recList .serpent ds = .ok ds ∧
+      nfList .serpent ds = true
+  | .nil, ys, ds, h1, h2, _ => by
+    simp [encElts] at h1; subst h1; simp [decList] at h2; subst h2
+    simp [Vals.all, hashOK.hashOKList, recList, nfList]
+  | .cons x xs, ys, ds, h1, h2, hu => by
+    simp only [encElts] at h1
+    split at h1
+    · rename_i ht
+      simp only [bind_eq_ok] at h1
+      obtain ⟨a, g1, ys', g2, e⟩ := h1; cases e
+      simp only [decList, bind_eq_ok] at h2
+      obtain ⟨d, g3, ds', g4, e⟩ := h2; cases e
+      simp only [unhashable.unhashableList, Bool.or_eq_false_iff] at hu
+      obtain ⟨i1, i2, i3, i4⟩ := hsr_val x a d g1 g3 hu.1
+      obtain ⟨j1, j2, j3, j4⟩ := hsr_elts xs ys' ds' g2 g4 hu.2
+      simp [Vals.all, hashOK.hashOKList, recList, nfList, i1, i2, i3, i4 ht, j1, j2, j3, j4]
+    · cases h1
+
+theorem jsonKey_isStr (k ka : Val) (h : jsonKey k = .ok ka) : ∃ t, ka = .str t := by
+  unfold jsonKey at h
+  split at h
+  all_goals first
+    | (cases h; exact ⟨_, rfl⟩)
+    | (split at h <;> first | (cases h; exact ⟨_, rfl⟩) | (split at h <;> first | (cases h; exact ⟨_, rfl⟩) | (split at h <;> first | (cases h; exact ⟨_, rfl⟩) | cases h)))
+    | cases h
+
+theorem fromLE_lt (bs : Bytes) : fromLE bs < 256 ^ bs.length := by
+  unfold fromLE
+  have := fromBE_lt bs.reverse
+  simpa using this
+
+theorem serpentBytes_rt (b : Bytes) :
+    dec .serpent false false (serpentBytes b) = .ok (serpentBytes b) ∧
+    recreate .serpent (serpentBytes b) = .ok (serpentBytes b) ∧ nf .serpent (serpentBytes b) = true := by
+  have e1 : (Val.str sEncoding = Val.str sData) = False := by decide
+  have e2 : (Val.str sData = Val.str sEncoding) = False := by decide
+  have e3 : (Val.str sData = classKey) = False := by decide
+  have e4 : (Val.str sEncoding = classKey) = False := by decide
+  refine ⟨?_, ?_, ?_⟩
+  · simp [serpentBytes, dec, decPairs, unhashable, Pairs.pushFront, Pairs.lookup, e1]
+  · simp [serpentBytes, recreate, recVals, Pairs.hasKey, e3, e4]
+  · simp [serpentBytes, nf, nfPairs, Pairs.hasKey, Pairs.nodupKeys, serpentHashType, hashOK, e1, e3, e4]
+
+
+theorem post_ok_leaf (r : Bool) (s : Ser) (d w : Val) (hrec : recreate s d = .ok d) (h : post r s d = .ok w) : w = d := by
+  cases r
+  · simp [post] at h; exact h.symm
+  · simp [post, hrec] at h; exact h.symm
+
+theorem nf_nan (s : Ser) : nf s (.float nanBits) = true := by
+  cases s <;> decide
+
+/-- post-processing a decoded dict: either a class dict (only serpent's NaN is ever re-created) or value-wise -/
+theorem post_dict (s : Ser) (r : Bool) (ds : Pairs) (w : Val) (hn : ds.nodupKeys = true)
+    (hg : GoodPairs s r ds) (hoh : r = false → ds.hasKey classKey = false)
+    (h : post r s (.dict ds) = .ok w) : nf s w = true := by
+  cases r with
+  | false =>
+    simp [post] at h; subst h
+    obtain ⟨i1, i2, i3⟩ := good_postVals s false ds ds hg (by simp [postVals])
+    simp [nf, hoh rfl, hn, i1]
+  | true =>
+    simp only [post, if_true, recreate] at h
+    split at h
+    · obtain ⟨_, e⟩ := dictToClass_ok s ds w h
+      subst e; exact nf_nan s
+    · rename_i hc
+      simp only [bind_eq_ok] at h
+      obtain ⟨ws, g, e⟩ := h; cases e
+      obtain ⟨i1, i2, i3⟩ := good_postVals s true ds ws hg (by simp [postVals, g])
+      have hc' : ds.hasKey classKey = false := by simpa using hc
+      simp [nf, i1, i2, i3, hn, hc']
+
+
+
+macro "rleaf" h1:ident h2:ident h3:ident : tactic => `(tactic| (
+  simp [enc] at $h1:ident; subst $h1:ident; simp [dec] at $h2:ident; subst $h2:ident
+  have := post_ok_leaf _ _ _ _ (by simp [recreate]) $h3:ident; subst this; simp [nf]))
+
+theorem phOK_r_true (s : Ser) (xh oh r : Bool) (hp : phOK s xh oh r) (hs : s ≠ .msgpack) : xh = false ∧ oh = false ∧ r = true := by
+  cases s <;> simp_all [phOK]
+
+theorem extHook_date_ok (data : Bytes) (d : Val) (h : extHook extDate data = .ok d) :
+    ∃ n, d = .date n ∧ 1 ≤ n ∧ n ≤ maxOrdinal := by
+  unfold extHook at h
+  rw [if_neg (by decide), if_neg (by decide), if_neg (by decide), if_pos rfl] at h
+  split at h
+  · simp only at h
+    split at h
+    · rename_i hc; cases h; exact ⟨_, rfl, hc.1, hc.2⟩
+    · cases h
+  · cases h
+
+theorem extHook_complex_ok (data : Bytes) (d : Val) (h : extHook extComplex data = .ok d) :
+    data.length = 16 ∧ d = .complex (fromLE (data.take 8)) (fromLE (data.drop 8)) := by
+  unfold extHook at h
+  rw [if_pos rfl] at h
+  split at h
+  · rename_i hc; cases h; exact ⟨hc, rfl⟩
+  · cases h
+
+theorem range_serpent_set (xs : Vals) (a d w : Val)
+    (h1 : enc .serpent true (.set xs) = .ok a ∨ enc .serpent true (.frozenset xs) = .ok a)
+    (h2 : dec .serpent false false a = .ok d) (h3 : post true .serpent d = .ok w) : nf .serpent w = true := by
+  have h1' : (match xs with
+            | .nil => (.ok (.tuple .nil) : Except Err Val)
+            | _ => encElts true xs >>= fun ys => .ok (.set ys)) = .ok a := by
+    rcases h1 with h | h
+    · cases xs <;> simpa [enc] using h
+    · cases xs <;> simpa [enc] using h
+  clear h1
+  have h1 := h1'
+  clear h1'
+  cases xs with
+  | nil =>
+    simp at h1; subst h1; simp [dec, decList] at h2; subst h2
+    simp [post, recreate, recList] at h3; subst h3; simp [nf, nfList]
+  | cons x xs =>
+    simp only [bind_eq_ok] at h1
+    obtain ⟨ys, g1, e⟩ := h1; cases e
+    simp only [dec, bind_eq_ok] at h2
+    obtain ⟨ds, g2, e⟩ := h2
+    split at e
+    · cases e
+    · rename_i c
+      cases e
+      have hu : unhashable.unhashableList ds = false := by
+        cases hh : unhashable.unhashableList ds with
+        | false => rfl
+        | true => simp [hh] at c
+      obtain ⟨i1, i2, i3, i4⟩ := hsr_elts (.cons x xs) ys ds g1 g2 hu
+      simp [post, recreate, i3] at h3; subst h3
+      -- ds is non-empty because the input was
+      simp only [encElts] at g1
+      split at g1
+      · simp only [bind_eq_ok] at g1
+        obtain ⟨y, _, ys', _, e⟩ := g1; cases e
+        simp only [decList, bind_eq_ok] at g2
+        obtain ⟨d0, _, ds', _, e⟩ := g2; cases e
+        simp [nf, i1, i2, i4]
+      · cases g1
+
+mutual
+theorem range_val (s : Ser) (xh oh r : Bool) (hp : phOK s xh oh r) : ∀ v, pyval v = true → ∀ a d w,
+    enc s true v = .ok a → dec s xh oh a = .ok d → post r s d = .ok w → nf s w = true
+  | .none, _, a, d, w, h1, h2, h3 => by rleaf h1 h2 h3
+  | .bool _, _, a, d, w, h1, h2, h3 => by rleaf h1 h2 h3
+  | .str _, _, a, d, w, h1, h2, h3 => by rleaf h1 h2 h3
+  | .int z, _, a, d, w, h1, h2, h3 => by
+    cases s with
+    | serpent => rleaf h1 h2 h3
+    | marshal => rleaf h1 h2 h3
+    | json => rleaf h1 h2 h3
+    | msgpack =>
+      obtain ⟨hx, _⟩ := hp; subst hx
+      simp only [enc] at h1
+      split at h1
+      · cases h1; simp [dec] at h2; subst h2
+        have := post_ok_leaf r _ _ w (by simp [recreate]) h3; subst this; simp [nf]
+      · simp at h1; subst h1
+        simp [dec, extHook_long] at h2; subst h2
+        have := post_ok_leaf r _ _ w (by simp [recreate]) h3; subst this; simp [nf]
+  | .float b, _, a, d, w, h1, h2, h3 => by
+    cases s with
+    | marshal => rleaf h1 h2 h3
+    | json => rleaf h1 h2 h3
+    | msgpack => rleaf h1 h2 h3
+    | serpent =>
+      obtain ⟨hx, ho, hr⟩ := hp; subst hx; subst ho; subst hr
+      simp [enc] at h1; subst h1
+      by_cases hn : isNan b = true
+      · have e : serpentFloat b = serpentFloat nanBits := by simp [serpentFloat, hn]; decide
+        rw [e, nan_dict_dec] at h2; cases h2
+        simp [post, nan_dict_rec] at h3; subst h3; decide
+      · have hn' : isNan b = false := by simpa using hn
+        rw [serpentFloat_of_not_nan b hn'] at h2
+        simp [dec] at h2; subst h2
+        simp [post, recreate] at h3; subst h3; simp [nf, floatOk, hn']
+  | .bytes b, _, a, d, w, h1, h2, h3 => by
+    cases s with
+    | marshal => rleaf h1 h2 h3
+    | msgpack => rleaf h1 h2 h3
+    | json => simp [enc, unsupported] at h1
+    | serpent =>
+      obtain ⟨hx, ho, hr⟩ := hp; subst hx; subst ho; subst hr
+      obtain ⟨i1, i2, i3⟩ := serpentBytes_rt b
+      simp [enc] at h1; subst h1
+      rw [i1] at h2; cases h2
+      simp [post, i2] at h3; subst h3; exact i3
+  | .bytearray b, _, a, d, w, h1, h2, h3 => by
+    cases s with
+    | marshal => rleaf h1 h2 h3
+    | msgpack => rleaf h1 h2 h3
+    | json => simp [enc, unsupported] at h1
+    | serpent =>
+      obtain ⟨hx, ho, hr⟩ := hp; subst hx; subst ho; subst hr
+      obtain ⟨i1, i2, i3⟩ := serpentBytes_rt b
+      simp [enc] at h1; subst h1
+      rw [i1] at h2; cases h2
+      simp [post, i2] at h3; subst h3; exact i3
+  | .uuid t, _, a, d, w, h1, h2, h3 => by
+    cases s with
+    | marshal => simp [enc] at h1
+    | serpent => rleaf h1 h2 h3
+    | json => rleaf h1 h2 h3
+    | msgpack => rleaf h1 h2 h3
+  | .decimal t, _, a, d, w, h1, h2, h3 => by
+    cases s with
+    | marshal => simp [enc] at h1
+    | serpent => rleaf h1 h2 h3
+    | json => rleaf h1 h2 h3
+    | msgpack => rleaf h1 h2 h3
+  | .ext _ _, _, a, d, w, h1, h2, h3 => by simp [enc] at h1
+  | .date ord, _, a, d, w, h1, h2, h3 => by
+    cases s with
+    | marshal => simp [enc] at h1
+    | serpent => rleaf h1 h2 h3
+    | json => rleaf h1 h2 h3
+    | msgpack =>
+      obtain ⟨hx, _⟩ := hp; subst hx
+      simp [enc] at h1; subst h1
+      simp only [dec, true_and, if_true] at h2
+      obtain ⟨n, e, hn1, hn2⟩ := extHook_date_ok _ _ h2
+      subst e
+      have := post_ok_leaf r _ _ w (by simp [recreate]) h3; subst this
+      simp [nf, hn1, hn2]
+  | .complex re im, _, a, d, w, h1, h2, h3 => by
+    cases s with
+    | marshal => rleaf h1 h2 h3
+    | json => simp [enc, unsupported] at h1
+    | msgpack =>
+      obtain ⟨hx, _⟩ := hp; subst hx
+      simp [enc] at h1; subst h1
+      simp only [dec, true_and, if_true] at h2
+      obtain ⟨_, e⟩ := extHook_complex_ok _ _ h2
+      subst e
+      have := post_ok_leaf r _ _ w (by simp [recreate]) h3; subst this
+      have l1 := fromLE_lt (List.take 8 (toLE 8 re ++ toLE 8 im))
+      have l2 := fromLE_lt (List.drop 8 (toLE 8 re ++ toLE 8 im))
+      simp only [take_toLE_append, drop_toLE_append, toLE_length] at l1 l2
+      simp only [take_toLE_append, drop_toLE_append]
+      simp only [nf, Bool.and_eq_true, decide_eq_true_eq]
+      exact ⟨by simpa using l1, by simpa using l2⟩
+    | serpent =>
+      obtain ⟨hx, ho, hr⟩ := hp; subst hx; subst ho; subst hr
+      simp only [enc] at h1
+      split at h1
+      · cases h1
+        obtain ⟨ds, g1, g2⟩ := dec_dict_shape _ _ _ _ _ h2
+        rcases g2 with ⟨c, _⟩ | ⟨_, e⟩
+        · cases c
+        · subst e
+          have hk : ds.hasKey classKey = true :=
+            decPairs_hasKey_str _ _ _ sClass _ ds g1 (by simp [Pairs.hasKey, classKey])
+          simp only [post, if_true, recreate, hk] at h3
+          obtain ⟨_, e⟩ := dictToClass_ok _ ds w h3
+          subst e; decide
+      · rename_i hn
+        split at h1
+        · cases h1
+        · rename_i hz
+          cases h1
+          simp [dec] at h2; subst h2
+          simp [post, recreate] at h3; subst h3
+          simp only [Bool.or_eq_true, not_or, Bool.not_eq_true] at hn
+          simp only [not_or] at hz
+          simp [nf, hn.1, hn.2, hz.1, hz.2]
+  | .list xs, hv, a, d, w, h1, h2, h3 => by
+    simp only [enc, bind_eq_ok] at h1
+    obtain ⟨ys, g1, e⟩ := h1; cases e
+    simp only [dec, bind_eq_ok] at h2
+    obtain ⟨ds, g2, e⟩ := h2; cases e
+    cases r with
+    | false =>
+      simp [post] at h3; subst h3
+      simpa [nf] using range_list s xh oh false hp xs (by simpa [pyval] using hv) ys ds ds g1 g2 (by simp [postList])
+    | true =>
+      simp only [post, if_true, recreate, bind_eq_ok] at h3
+      obtain ⟨ws, g3, e⟩ := h3; cases e
+      simpa [nf] using range_list s xh oh true hp xs (by simpa [pyval] using hv) ys ds ws g1 g2 (by simp [postList, g3])
+  | .tuple xs, hv, a, d, w, h1, h2, h3 => by
+    have key : ∀ (mk : Vals → Val), (∀ zs, nf s (mk zs) = nfList s zs) →
+        (∀ zs, dec s xh oh (mk zs) = (decList s xh oh zs >>= fun ys => .ok (mk ys))) →
+        (∀ zs, recreate s (mk zs) = (recList s zs >>= fun ys => .ok (mk ys))) →
+        ∀ ys, encList s true xs = .ok ys → a = mk ys → nf s w = true := by
+      intro mk hnf hdec hrec ys g1 e
+      subst e
+      rw [hdec] at h2
+      simp only [bind_eq_ok] at h2
+      obtain ⟨ds, g2, e⟩ := h2; cases e
+      cases r with
+      | false =>
+        simp [post] at h3; subst h3
+        rw [hnf]
+        exact range_list s xh oh false hp xs (by simpa [pyval] using hv) ys ds ds g1 g2 (by simp [postList])
+      | true =>
+        simp only [post, if_true, hrec, bind_eq_ok] at h3
+        obtain ⟨ws, g3, e⟩ := h3; cases e
+        rw [hnf]
+        exact range_list s xh oh true hp xs (by simpa [pyval] using hv) ys ds ws g1 g2 (by simp [postList, g3])
+    cases s with
+    | serpent =>
+      simp only [enc, bind_eq_ok] at h1
+      obtain ⟨ys, g1, e⟩ := h1
+      exact key .tuple (by simp [nf]) (by simp [dec]) (by simp [recreate]) ys g1 (by cases e; rfl)
+    | marshal =>
+      simp only [enc, bind_eq_ok] at h1
+      obtain ⟨ys, g1, e⟩ := h1
+      exact key .tuple (by simp [nf]) (by simp [dec]) (by simp [recreate]) ys g1 (by cases e; rfl)
+    | json =>
+      simp only [enc, bind_eq_ok] at h1
+      obtain ⟨ys, g1, e⟩ := h1
+      exact key .list (by simp [nf]) (by simp [dec]) (by simp [recreate]) ys g1 (by cases e; rfl)
+    | msgpack =>
+      simp only [enc, bind_eq_ok] at h1
+      obtain ⟨ys, g1, e⟩ := h1
+      exact key .list (by simp [nf]) (by simp [dec]) (by simp [recreate]) ys g1 (by cases e; rfl)
+  | .set xs, hv, a, d, w, h1, h2, h3 => by
+    simp only [pyval, Bool.and_eq_true] at hv
+    have key : ∀ (mk : Vals → Val), (∀ zs, nf s (mk zs) = nfList s zs) →
+        (∀ zs, dec s xh oh (mk zs) = (decList s xh oh zs >>= fun ys => .ok (mk ys))) →
+        (∀ zs, recreate s (mk zs) = (recList s zs >>= fun ys => .ok (mk ys))) →
+        ∀ ys, encList s true xs = .ok ys → a = mk ys → nf s w = true := by
+      intro mk hnf hdec hrec ys g1 e
+      subst e
+      rw [hdec] at h2
+      simp only [bind_eq_ok] at h2
+      obtain ⟨ds, g2, e⟩ := h2; cases e
+      cases r with
+      | false =>
+        simp [post] at h3; subst h3
+        rw [hnf]
+        exact range_list s xh oh false hp xs hv.2 ys ds ds g1 g2 (by simp [postList])
+      | true =>
+        simp only [post, if_true, hrec, bind_eq_ok] at h3
+        obtain ⟨ws, g3, e⟩ := h3; cases e
+        rw [hnf]
+        exact range_list s xh oh true hp xs hv.2 ys ds ws g1 g2 (by simp [postList, g3])
+    cases s with
+    | marshal =>
+      simp only [enc, bind_eq_ok] at h1
+      obtain ⟨ys, g1, e⟩ := h1
+      exact key .set (by simp [nf]) (by simp [dec]) (by simp [recreate]) ys g1 (by cases e; rfl)
+    | json =>
+      simp only [enc, if_true, bind_eq_ok] at h1
+      obtain ⟨ys, g1, e⟩ := h1
+      exact key .list (by simp [nf]) (by simp [dec]) (by simp [recreate]) ys g1 (by cases e; rfl)
+    | msgpack =>
+      simp only [enc, if_true, bind_eq_ok] at h1
+      obtain ⟨ys, g1, e⟩ := h1
+      exact key .list (by simp [nf]) (by simp [dec]) (by simp [recreate]) ys g1 (by cases e; rfl)
+    | serpent =>
+      obtain ⟨hx, ho, hr⟩ := hp; subst hx; subst ho; subst hr
+      exact range_serpent_set xs a d w (Or.inl h1) h2 h3
+  | .frozenset xs, hv, a, d, w, h1, h2, h3 => by
+    simp only [pyval, Bool.and_eq_true] at hv
+    cases s with
+    | json => simp [enc, unsupported] at h1
+    | msgpack => simp [enc, unsupported] at h1
+    | serpent =>
+      obtain ⟨hx, ho, hr⟩ := hp; subst hx; subst ho; subst hr
+      exact range_serpent_set xs a d w (Or.inr h1) h2 h3
+    | marshal =>
+      obtain ⟨hx, ho, hr⟩ := hp; subst hx; subst ho; subst hr
+      simp only [enc, bind_eq_ok] at h1
+      obtain ⟨ys, g1, e⟩ := h1; cases e
+      simp only [dec, bind_eq_ok] at h2
+      obtain ⟨ds, g2, e⟩ := h2; cases e
+      simp [post, recreate] at h3; subst h3
+      obtain ⟨_, i2⟩ := hmr_list xs ys ds hv.1 g1 g2
+      simpa [nf] using i2
+  | .dict kvs, hv, a, d, w, h1, h2, h3 => by
+    simp only [pyval, Bool.and_eq_true] at hv
+    simp only [enc, bind_eq_ok] at h1
+    obtain ⟨ps, g1, e⟩ := h1; cases e
+    obtain ⟨ds, g2, g3⟩ := dec_dict_shape _ _ _ _ _ h2
+    obtain ⟨hn, hg⟩ := range_pairs s xh oh r hp kvs hv.1 hv.2 ps ds g1 g2
+    rcases g3 with ⟨_, _, _, c⟩ | ⟨hc, e⟩
+    · obtain ⟨c1, _⟩ := dictToClass_ok _ _ _ c; cases c1
+    · subst e
+      refine post_dict s r ds w hn hg ?_ h3
+      intro hr
+      subst hr
+      cases s with
+      | msgpack =>
+        obtain ⟨_, hh⟩ := hp
+        rcases hh with ⟨ho, _⟩ | ⟨_, c⟩
+        · subst ho
+          cases hk : ds.hasKey classKey with
+          | false => rfl
+          | true => exact absurd ⟨rfl, rfl, hk⟩ hc
+        · cases c
+      | serpent => obtain ⟨_, _, c⟩ := hp; cases c
+      | marshal => obtain ⟨_, _, c⟩ := hp; cases c
+      | json => obtain ⟨_, _, c⟩ := hp; cases c
+  | .inst cls fields, hv, a, d, w, h1, h2, h3 => by
+    have key : ∀ fs : Pairs, a = .dict (fs.set classKey (.str cls)) → nf s w = true := by
+      intro fs e
+      subst e
+      obtain ⟨ds, g2, g3⟩ := dec_dict_shape _ _ _ _ _ h2
+      rcases g3 with ⟨_, _, _, c⟩ | ⟨_, e⟩
+      · obtain ⟨c1, _⟩ := dictToClass_ok _ _ _ c; cases c1
+      · subst e
+        have hk : ds.hasKey classKey = true :=
+          decPairs_hasKey_str _ _ _ sClass _ ds g2 (hasKey_set_self _ _ fs)
+        cases r with
+        | true =>
+          simp only [post, if_true, recreate, hk] at h3
+          obtain ⟨_, e⟩ := dictToClass_ok _ ds w h3
+          subst e; exact nf_nan s
+        | false =>
+          cases s with
+          | msgpack =>
+            obtain ⟨_, hh⟩ := hp
+            rcases hh with ⟨ho, _⟩ | ⟨_, c⟩
+            · subst ho
+              simp only [dec, g2, bind_ok', hk] at h2
+              simp at h2
+              obtain ⟨c1, _⟩ := dictToClass_ok _ _ _ h2; cases c1
+            · cases c
+          | serpent => obtain ⟨_, _, c⟩ := hp; cases c
+          | marshal => obtain ⟨_, _, c⟩ := hp; cases c
+          | json => obtain ⟨_, _, c⟩ := hp; cases c
+    cases s with
+    | marshal => simp [enc] at h1
+    | serpent =>
+      simp only [enc, bind_eq_ok] at h1
+      obtain ⟨fs, _, e⟩ := h1
+      exact key fs (by cases e; rfl)
+    | json =>
+      simp only [enc, if_true, bind_eq_ok] at h1
+      obtain ⟨fs, _, e⟩ := h1
+      exact key fs (by cases e; rfl)
+    | msgpack =>
+      simp only [enc, if_true, bind_eq_ok] at h1
+      obtain ⟨fs, _, e⟩ := h1
+      exact key fs (by cases e; rfl)
+theorem range_list (s : Ser) (xh oh r : Bool) (hp : phOK s xh oh r) : ∀ xs, pyvalList xs = true → ∀ as ds ws,
+    encList s true xs = .ok as → decList s xh oh as = .ok ds → postList r s ds = .ok ws → nfList s ws = true
+  | .nil, _, as, ds, ws, h1, h2, h3 => by
+    simp [encList] at h1; subst h1; simp [decList] at h2; subst h2
+    cases r <;> simp [postList, recList] at h3 <;> subst h3 <;> simp [nfList]
+  | .cons x xs, hv, as, ds, ws, h1, h2, h3 => by
+    simp only [pyvalList, Bool.and_eq_true] at hv
+    simp only [encList, bind_eq_ok] at h1
+    obtain ⟨a, g1, as', g2, e⟩ := h1; cases e
+    simp only [decList, bind_eq_ok] at h2
+    obtain ⟨d, g3, ds', g4, e⟩ := h2; cases e
+    cases r with
+    | false =>
+      simp [postList] at h3; subst h3
+      have i1 := range_val s xh oh false hp x hv.1 a d d g1 g3 (by simp [post])
+      have i2 := range_list s xh oh false hp xs hv.2 as' ds' ds' g2 g4 (by simp [postList])
+      simp [nfList, i1, i2]
+    | true =>
+      simp only [postList, if_true, recList, bind_eq_ok] at h3
+      obtain ⟨w, g5, ws', g6, e⟩ := h3; cases e
+      have i1 := range_val s xh oh true hp x hv.1 a d w g1 g3 (by simp [post, g5])
+      have i2 := range_list s xh oh true hp xs hv.2 as' ds' ws' g2 g4 (by simp [postList, g6])
+      simp [nfList, i1, i2]
+theorem range_pairs (s : Ser) (xh oh r : Bool) (hp : phOK s xh oh r) : ∀ kvs, kvs.allKeys hashable = true →
+    pyvalPairs kvs = true → ∀ ps ds, encPairs s true kvs = .ok ps → decPairs s xh oh ps = .ok ds →
+    ds.nodupKeys = true ∧ GoodPairs s r ds
+  | .nil, _, _, ps, ds, h1, h2 => by
+    simp [encPairs] at h1; subst h1; simp [decPairs] at h2; subst h2
+    exact ⟨rfl, trivial⟩
+  | .cons k v rest, hh, hv, ps, ds, h1, h2 => by
+    simp only [Pairs.allKeys, Bool.and_eq_true] at hh
+    simp only [pyvalPairs, Bool.and_eq_true] at hv
+    -- shape of the encoded pairs, per serializer
+    have shape : ∃ ka a ps', ps = .cons ka a ps' ∧ enc s true v = .ok a ∧ encPairs s true rest = .ok ps' ∧
+        (∀ kd, dec s xh oh ka = .ok kd →
+          (s = .serpent → unhashable kd = false → keyOK s kd = true) ∧
+          (s = .marshal → keyOK s kd = true) ∧ (s = .json → keyOK s kd = true)) := by
+      cases s with
+      | serpent =>
+        obtain ⟨hx, ho, hr⟩ := hp; subst hx; subst ho; subst hr
+        simp only [encPairs] at h1
+        split at h1
+        · rename_i ht
+          simp only [bind_eq_ok] at h1
+          obtain ⟨ka, g1, a, g2, ps', g3, e⟩ := h1; cases e
+          refine ⟨ka, a, ps', rfl, g2, g3, ?_⟩
+          intro kd hkd
+          refine ⟨fun _ hu => ?_, (fun c => by cases c), (fun c => by cases c)⟩
+          obtain ⟨i1, _, i3, i4⟩ := hsr_val k ka kd g1 hkd hu
+          simp [keyOK, i1, i3, i4 ht]
+        · cases h1
+      | marshal =>
+        obtain ⟨hx, ho, hr⟩ := hp; subst hx; subst ho; subst hr
+        simp only [encPairs, bind_eq_ok] at h1
+        obtain ⟨ka, g1, a, g2, ps', g3, e⟩ := h1; cases e
+        refine ⟨ka, a, ps', rfl, g2, g3, ?_⟩
+        intro kd hkd
+        refine ⟨(fun c => by cases c), fun _ => ?_, (fun c => by cases c)⟩
+        obtain ⟨i1, i2⟩ := hmr_val k ka kd hh.1 g1 hkd
+        simp [keyOK, i1, i2]
+      | json =>
+        obtain ⟨hx, ho, hr⟩ := hp; subst hx; subst ho; subst hr
+        simp only [encPairs, bind_eq_ok] at h1
+        obtain ⟨ka, g1, a, g2, ps', g3, e⟩ := h1; cases e
+        refine ⟨ka, a, ps', rfl, g2, g3, ?_⟩
+        intro kd hkd
+        refine ⟨(fun c => by cases c), (fun c => by cases c), fun _ => ?_⟩
+        obtain ⟨t, e⟩ := jsonKey_isStr k ka g1
+        subst e
+        simp [dec] at hkd; subst hkd
+        simp [keyOK, isStr]
+      | msgpack =>
+        simp only [encPairs, bind_eq_ok] at h1
+        obtain ⟨ka, g1, a, g2, ps', g3, e⟩ := h1; cases e
+        refine ⟨ka, a, ps', rfl, g2, g3, ?_⟩
+        intro kd _
+        exact ⟨(fun c => by cases c), (fun c => by cases c), (fun c => by cases c)⟩
+    obtain ⟨ka, a, ps', e, g2, g3, hkey⟩ := shape
+    subst e
+    simp only [decPairs, bind_eq_ok] at h2
+    obtain ⟨kd, d1, d, d2, d3⟩ := h2
+    split at d3
+    · cases d3
+    · rename_i c1
+      split at d3
+      · cases d3
+      · rename_i c2
+        simp only [bind_eq_ok] at d3
+        obtain ⟨ds', d4, e⟩ := d3; cases e
+        obtain ⟨hn, hg⟩ := range_pairs s xh oh r hp rest hh.2 hv.2 ps' ds' g3 d4
+        refine ⟨Pairs.nodupKeys_pushFront _ _ _ hn, good_pushFront s r kd d ds' ?_ ?_ hg⟩
+        · obtain ⟨k1, k2, k3⟩ := hkey kd d1
+          cases s with
+          | serpent =>
+            apply k1 rfl
+            cases hu : unhashable kd with
+            | false => rfl
+            | true => exact absurd ⟨rfl, hu⟩ c1
+          | marshal => exact k2 rfl
+          | json => exact k3 rfl
+          | msgpack =>
+            cases hb : isStrOrBytes kd with
+            | true => simp [keyOK, hb]
+            | false => exact absurd ⟨rfl, by simp [hb]⟩ c2
+        · intro w hw
+          exact range_val s xh oh r hp v hv.1.2 a d w g2 d2 hw
+end
+
 end Pyro.Values
